@@ -146,6 +146,15 @@ def respell(text, mode):
     t = re.sub(r"<http://www.w3.org/2001/XMLSchema#([A-Za-z]+)>", r"x:\1", t)
     if mode == 1:
         return "PREFIX u: <urn:>\nPREFIX x: <http://www.w3.org/2001/XMLSchema#>\n" + t, {}
+    if mode == 3:
+        # two prefixes for one namespace, used in turn
+        n = [0]
+
+        def alt(m):
+            n[0] += 1
+            return ("u:" if n[0] % 2 else "v:") + m.group(1)
+        t = re.sub(r"\bu:([A-Za-z][A-Za-z0-9]*)", alt, t)
+        return "PREFIX u: <urn:>\nPREFIX v: <urn:>\nPREFIX x: <http://www.w3.org/2001/XMLSchema#>\n" + t, {}
     return t, {"initNs": {"u": URIRef("urn:"), "x": URIRef("http://www.w3.org/2001/XMLSchema#")}}
 
 
@@ -227,7 +236,7 @@ def rewrite_cases(draw, tier):
     rw = {"permute": draw(st.booleans()), "keys": draw(st.lists(st.integers(0, 9), min_size=4, max_size=4)),
           "swap": draw(st.booleans()), "flags": draw(st.lists(st.booleans(), min_size=3, max_size=3)),
           "rename": draw(st.one_of(st.none(), st.permutations(gs.VARS), st.just(["v1", "x", "zz", "A", "_u"]))),
-          "spelling": draw(st.integers(0, 2)), "braces": draw(st.booleans())}
+          "spelling": draw(st.integers(0, 3)), "braces": draw(st.booleans())}
     return {"kind": kind, "data": data, "pattern": pat, "vars": vars_, "rewrite": rw, "flag": True if kind != "dataset" else draw(st.booleans())}
 
 
